@@ -1,6 +1,19 @@
-"""Positive controls (posctl crate) and mutant self-test. Filled in below."""
+"""Self-test of the checker, both ways (DESIGN.md section 9):
+  * every mutants/*.patch and seeded/*/patch*.diff applied to a scratch worktree of /repo HEAD must make the
+    expected property's check fire (exit 1 + VIOLATION), naming the expected rule when one is given;
+  * every mutants/benign/*.patch (behaviour-preserving edits) must leave every claimed check at exit 0.
+Scratch worktrees live under tempfile and are removed after each patch."""
+import concurrent.futures
+import json
 import os
+import re
+import subprocess
+import sys
+import tempfile
+
 import extract
+
+VERIF = extract.VERIF
 
 
 def smoke():
@@ -11,6 +24,130 @@ def smoke():
     return 0
 
 
-def selftest(names):
-    print("selftest: not implemented yet")
+def _claimed():
+    with open(os.path.join(VERIF, "MANIFEST.json")) as f:
+        return [c["property_id"] for c in json.load(f)["checks"]]
+
+
+def _run_patch(patch, props, tier="quick"):
+    """returns {prop: (rc, rules, text)} or {'_error': ..}"""
+    wt = tempfile.mkdtemp(prefix="hbv-self.")
+    out = {}
+    try:
+        r = subprocess.run(["git", "-C", extract.REPO, "worktree", "add", "-q", "--detach", wt, "HEAD"], stdout=subprocess.PIPE, stderr=subprocess.STDOUT, text=True)
+        if r.returncode != 0:
+            return {"_error": "worktree: " + r.stdout}
+        r = subprocess.run(["git", "apply", patch], cwd=wt, stdout=subprocess.PIPE, stderr=subprocess.STDOUT, text=True)
+        if r.returncode != 0:
+            return {"_error": "patch does not apply to /repo HEAD"}
+        env = dict(os.environ, HBV_REPO=wt, HBV_NO_EVIDENCE="1")
+        for p in props:
+            r = subprocess.run([os.path.join(VERIF, "hbv"), "check", p, "--tier", tier], cwd=VERIF, env=env, stdout=subprocess.PIPE, stderr=subprocess.STDOUT, text=True)
+            rules = sorted(set(re.findall(r"\[((?:R|W)-[A-Z-]+)\]", r.stdout)))
+            out[p] = (r.returncode, rules, r.stdout[-1500:])
+    finally:
+        subprocess.run(["git", "-C", extract.REPO, "worktree", "remove", "--force", wt], stdout=subprocess.DEVNULL, stderr=subprocess.DEVNULL)
+        subprocess.run(["rm", "-rf", wt])
+    return out
+
+
+def _corpus(only_props=None):
+    items = []
+    md = os.path.join(VERIF, "mutants")
+    for f in sorted(os.listdir(md)):
+        if not f.endswith(".patch"):
+            continue
+        head = open(os.path.join(md, f)).read(600)
+        rule = (re.search(r"^# expected-rule: (\S+)", head, re.M) or [None, None])[1]
+        prop = (re.search(r"^# expected-property: (\S+)", head, re.M) or [None, None])[1]
+        items.append({"name": "mutants/" + f[:-6], "patch": os.path.join(md, f), "prop": prop, "rule": rule, "kind": "mutant"})
+    sd = os.path.join(VERIF, "seeded")
+    for d in sorted(os.listdir(sd)):
+        pd = os.path.join(sd, d)
+        if not os.path.isdir(pd):
+            continue
+        patch = os.path.join(pd, "patch.rebased.diff")
+        if not os.path.exists(patch):
+            patch = os.path.join(pd, "patch.diff")
+        meta = json.load(open(os.path.join(pd, "meta.json")))
+        exp = meta.get("expected_detection")
+        items.append({"name": "seeded/" + d, "patch": patch, "prop": meta["breaks_property"], "rule": None, "kind": "seeded", "expected": exp})
+    bd = os.path.join(md, "benign")
+    for f in sorted(os.listdir(bd)) if os.path.isdir(bd) else []:
+        if f.endswith(".patch"):
+            items.append({"name": "benign/" + f[:-6], "patch": os.path.join(bd, f), "prop": None, "rule": None, "kind": "benign"})
+    if only_props:
+        items = [i for i in items if i["kind"] == "benign" or i["prop"] in only_props]
+    return items
+
+
+def selftest(args):
+    only = [a for a in args if re.match(r"^C\d+$", a)]
+    names = [a for a in args if not re.match(r"^C\d+$", a) and not a.startswith("--")]
+    items = _corpus(only or None)
+    if names:
+        items = [i for i in items if any(n in i["name"] for n in names)]
+    if "--no-benign" in args:
+        items = [i for i in items if i["kind"] != "benign"]
+    claimed = _claimed()
+    failures = []
+    known_missed = _known_missed()
+
+    def work(it):
+        if it["kind"] == "benign":
+            props = only or claimed
+        else:
+            props = [it["prop"]] if it["prop"] in claimed else []
+        if not props:
+            return it, {"_skip": "property not claimed"}
+        return it, _run_patch(it["patch"], props)
+
+    with concurrent.futures.ThreadPoolExecutor(max_workers=int(os.environ.get("HBV_JOBS", "6"))) as ex:
+        for it, res in ex.map(work, items):
+            if "_error" in res or "_skip" in res:
+                print("  SKIP   %-45s %s" % (it["name"], res.get("_error") or res.get("_skip")))
+                continue
+            if it["kind"] == "benign":
+                bad = {p: v for p, v in res.items() if v[0] != 0}
+                if bad:
+                    failures.append(it["name"])
+                    for p, v in bad.items():
+                        print("  FALSE-ALARM %-40s %s rc=%d %s" % (it["name"], p, v[0], v[1]))
+                else:
+                    print("  silent %-45s on %d checks" % (it["name"], len(res)))
+            else:
+                rc, rules, text = res[it["prop"]]
+                ok = rc == 1 and (not it["rule"] or it["rule"] in rules)
+                if ok:
+                    print("  fires  %-45s %s %s" % (it["name"], it["prop"], rules))
+                elif it["name"] in known_missed:
+                    print("  missed %-45s %s (listed in seeded/KNOWN_MISSED.json: %s)" % (it["name"], it["prop"], known_missed[it["name"]][:80]))
+                else:
+                    failures.append(it["name"])
+                    print("  MISSED %-45s %s rc=%d rules=%s expected=%s" % (it["name"], it["prop"], rc, rules, it["rule"]))
+    if failures:
+        print("selftest: %d unexpected result(s): %s" % (len(failures), failures))
+        return 1
+    print("selftest: all %d corpus entries behaved as expected" % len(items))
     return 0
+
+
+def _known_missed():
+    p = os.path.join(VERIF, "seeded", "KNOWN_MISSED.json")
+    if os.path.exists(p):
+        return json.load(open(p))
+    return {}
+
+
+def hook(pid, tier, repo=None):
+    """thorough-tier hook: self-test restricted to the corpus entries of this property (only on the real /repo)."""
+    if repo or os.environ.get("HBV_REPO") or os.environ.get("HBV_IN_SELFTEST"):
+        return {"results": [], "undecided": [], "info": {}}
+    env = dict(os.environ, HBV_IN_SELFTEST="1")
+    r = subprocess.run([os.path.join(VERIF, "hbv"), "selftest", pid, "--no-benign"], cwd=VERIF, env=env, stdout=subprocess.PIPE, stderr=subprocess.STDOUT, text=True)
+    fires = len(re.findall(r"^  fires ", r.stdout, re.M))
+    missed = re.findall(r"^  MISSED\s+(\S+)", r.stdout, re.M)
+    und = []
+    if missed:
+        und.append("selftest: the checker no longer detects corpus mutation(s) %s of this property" % missed)
+    return {"results": [], "undecided": und, "info": {"selftest": {"mutations_detected": fires, "not_detected": missed, "listed_as_missed": len(re.findall(r"^  missed ", r.stdout, re.M))}}}
